@@ -732,3 +732,168 @@ Proof.
     + intros x _ _. apply Inv_complete; exact HI.
     + apply Inv_acyclic; exact HI.
 Qed.
+
+(* ------------------------------------------------------------------ soundness of repair on ANY graph (cyclic included):
+   whatever the DFS adds is justified by a path, so a self-loop it reports is a real cycle *)
+Lemma loop_sound g rec u :
+  (forall a s seen s' seen', rec a s seen = Some (s', seen') -> St g s -> St g s') ->
+  forall edges s seen explored acc s' seen' acc',
+    loop_f rec edges s seen explored acc = Some (s', seen', acc') ->
+    St g s -> (forall a, In a edges -> reach g u a) -> (forall y, In y acc -> reach g u y) ->
+    St g s' /\ (forall y, In y acc' -> reach g u y).
+Proof.
+  intros HR. induction edges as [|a rest IH]; intros s seen explored acc s' seen' acc' H HSt Hed Hacc.
+  - cbn [loop_f] in H. inversion H; subst. split; assumption.
+  - cbn [loop_f] in H. fold (loop_f rec) in H.
+    assert (Hua : reach g u a) by (apply Hed; left; reflexivity).
+    assert (Hed1 : forall b, In b rest -> reach g u b) by (intros b Hb; apply Hed; right; exact Hb).
+    destruct (if mem a seen then Some (s, seen) else rec a s (a :: seen)) as [[s1 seen1]|] eqn:E; [|discriminate].
+    assert (HSt1 : St g s1).
+    { destruct (mem a seen); [inversion E; subst; exact HSt | eapply HR; eassumption]. }
+    destruct (mem a explored).
+    + eapply IH; eassumption.
+    + eapply IH; [exact H | exact HSt1 | exact Hed1 |].
+      intros y Hy. destruct (find a s1) as [an|] eqn:Fa; [|apply Hacc; exact Hy].
+      apply in_app_or in Hy as [Hy|Hy]; [apply Hacc; exact Hy|].
+      eapply reach_trans; [exact Hua|]. destruct HSt1 as [_ HS1]. eapply HS1; eassumption.
+Qed.
+
+Lemma add_anc_sound g : forall fuel u s seen s' seen',
+  add_anc fuel u s seen = Some (s', seen') -> St g s -> St g s'.
+Proof.
+  induction fuel as [|f IH]; intros u s seen s' seen' H HSt; [discriminate|].
+  rewrite add_anc_S in H. destruct (find u s) as [n|] eqn:F; [|inversion H; subst; exact HSt].
+  destruct (loop_f (add_anc f) (ancestors n) s seen [] []) as [[[s1 seen1] acc1]|] eqn:EL; [|discriminate].
+  inversion H; subst. clear H.
+  destruct (loop_sound g (add_anc f) u IH _ _ _ _ _ _ _ _ EL HSt) as [[G1 HS1] Hacc1].
+  - intros a Ha. destruct HSt as [_ HS]. eapply HS; eassumption.
+  - intros y [].
+  - split.
+    + rewrite graph_of_update; [exact G1 | apply fold_add_indirect_parents].
+    + intros x m Fx a Ha. destruct (N.eq_dec x u) as [-> | Hx].
+      * rewrite find_update_same in Fx. destruct (find u s1) as [n1|] eqn:F1; [|discriminate].
+        cbn [option_map] in Fx. inversion Fx; subst m. apply fold_add_indirect_anc in Ha as [Ha|Ha].
+        -- eapply HS1; eassumption.
+        -- apply Hacc1; exact Ha.
+      * rewrite find_update_other in Fx by assumption. eapply HS1; eassumption.
+Qed.
+
+Lemma forallb_false_ex {A} (f : A -> bool) l : forallb f l = false -> exists x, In x l /\ f x = false.
+Proof.
+  induction l as [|x l IH]; cbn [forallb]; [discriminate|].
+  destruct (f x) eqn:E; cbn [andb].
+  - intros H. destruct (IH H) as [y [Hy Fy]]. exists y. split; [right; exact Hy | exact Fy].
+  - intros _. exists x. split; [left; reflexivity | exact E].
+Qed.
+
+Lemma repair_sound s T :
+  Sound (graph_of s) s ->
+  match repair T s with
+  | TOk s' => graph_of s' = graph_of s /\ Sound (graph_of s) s'
+  | TErr ECycle => exists t, In t (keys s) /\ reach (graph_of s) t t
+  | TErr _ => True
+  end.
+Proof.
+  intros HS. unfold repair.
+  set (fuel := Datatypes.S (Datatypes.S (length (all_uids s)))).
+  set (F := fun acc t => match acc with None => None | Some (s0, seen) => add_anc fuel t s0 seen end).
+  assert (HF : forall T0 st, St (graph_of s) (fst st) ->
+             match fold_left F T0 (Some st) with Some (s', _) => St (graph_of s) s' | None => True end).
+  { induction T0 as [|t T0 IH]; intros [s0 seen0] H0; cbn [fold_left fst].
+    - exact H0.
+    - unfold F at 2. destruct (add_anc fuel t s0 seen0) as [[s1 seen1]|] eqn:E.
+      + apply (IH (s1, seen1)). eapply add_anc_sound; eassumption.
+      + assert (N : fold_left F T0 None = None) by (clear; induction T0; cbn; auto). rewrite N. exact I. }
+  specialize (HF T (s, filter (fun k => negb (mem k T)) (keys s)) (conj eq_refl HS)).
+  fold fuel. fold F.
+  destruct (fold_left F T (Some (s, filter (fun k => negb (mem k T)) (keys s)))) as [[s' seen']|]; [|exact I].
+  destruct HF as [G' HS'].
+  destruct (enforce_dag_for T s') eqn:D; [split; assumption|].
+  unfold enforce_dag_for in D. apply forallb_false_ex in D. destruct D as [t [_ Ht]].
+  destruct (find t s') as [n|] eqn:Ft; [|discriminate].
+  apply negb_false_iff, is_desc_In in Ht. exists t. split; [|eapply HS'; eassumption].
+  destruct (find t s) as [m|] eqn:Fs.
+  - apply find_some_in in Fs. unfold keys. apply in_map_iff. exists (t, m). split; [reflexivity | exact Fs].
+  - apply (same_graph_find s' s t G') in Fs. congruence.
+Qed.
+
+(* ------------------------------------------------------------------ add: facts that do not need acyclicity *)
+Lemma add_edit_sound s es s1 : Inv s -> insert_all s es = TOk s1 -> Sound (graph_of s1) s1.
+Proof.
+  intros HI E.
+  assert (ND1 : NoDup (keys s1)) by (eapply insert_all_keys; [apply HI | exact E]).
+  destruct (insert_all_shape es s s1 E) as [news [Es Hnews]].
+  intros u n F a Ha. rewrite Es in F. rewrite find_app in F. rewrite Es, graph_of_app.
+  destruct (find u s) as [n0|] eqn:F0.
+  - inversion F; subst n0. apply reach_app_l. eapply Inv_Sound; eassumption.
+  - apply find_some_in in F. destruct (Hnews u n F) as [_ Hind].
+    apply reach_parent. unfold parents_of.
+    rewrite gfind_app_none by (apply gfind_graph_of_none; exact F0).
+    assert (ND2 : NoDup (keys news)).
+    { rewrite Es, keys_app in ND1. apply nodup_app_r in ND1. exact ND1. }
+    rewrite (gfind_in (graph_of news)) with (ps := n_parents n).
+    + unfold ancestors in Ha. rewrite Hind, app_nil_r in Ha. exact Ha.
+    + rewrite keys_graph_of; exact ND2.
+    + apply in_graph_of; exact F.
+Qed.
+
+Lemma add_untouched_reach s es s1 t x n a :
+  Inv s -> insert_all s es = TOk s1 -> (forall k, In k (map fst es) -> In k t) ->
+  ~ In x (touch_descendants t s1) -> find x s1 = Some n -> reach (graph_of s1) x a ->
+  find x s = Some n /\ reach (graph_of s) x a.
+Proof.
+  intros HI E Ht HnT F Hr.
+  destruct (insert_all_shape es s s1 E) as [news [Es Hnews]].
+  assert (HxT : ~ In x (map fst es)) by (intros H; apply HnT, td_mono, Ht, H).
+  assert (F0 : find x s = Some n).
+  { rewrite Es, find_app in F. destruct (find x s) as [n0|]; [exact F|].
+    apply find_some_in in F. destruct (Hnews x n F) as [A _]. contradiction. }
+  split; [exact F0|].
+  assert (Hnew : forall b, ~ In b (map fst es) -> gfind b (graph_of news) = None).
+  { intros b Hb. apply gfind_graph_of_none, not_in_keys_find. intros Hk.
+    unfold keys in Hk. apply in_map_iff in Hk as [[k m] [Hk1 Hk2]]. cbn [fst] in Hk1. subst k.
+    apply Hb. apply (Hnews b m Hk2). }
+  assert (Hpar : forall b p, ~ In b (map fst es) -> In p (parents_of (graph_of s1) b) -> In p (parents_of (graph_of s) b)).
+  { intros b p Hb Hp. rewrite Es, graph_of_app in Hp. unfold parents_of in *.
+    destruct (gfind b (graph_of s)) as [ps|] eqn:Gb.
+    - rewrite (gfind_app_some _ _ _ _ Gb) in Hp. exact Hp.
+    - rewrite gfind_app_none, Hnew in Hp by assumption. destruct Hp. }
+  induction Hr as [p Hp | b p Hb IH Hp].
+  - apply reach_parent. apply Hpar; assumption.
+  - eapply reach_step; [exact IH|]. apply Hpar; [|exact Hp].
+    intros HbT. apply HnT. apply (td_desc s1 t x n b).
+    + apply find_some_in; exact F.
+    + eapply Inv_complete; eassumption.
+    + apply Ht; exact HbT.
+Qed.
+
+(* (c), graph level: every cycle of the edited graph runs through touched entities only *)
+Lemma add_cycles_touched s es s1 t :
+  Inv s -> i_add_loop s [] es = TOk (s1, t) ->
+  forall x, reach (graph_of s1) x x -> In x (touch_descendants t s1).
+Proof.
+  intros HI EL x Hr.
+  pose proof (i_add_loop_insert_all es s []) as HL. rewrite EL in HL.
+  destruct (i_add_loop_touched es s [] s1 t EL) as [_ Ht].
+  destruct (mem x (touch_descendants t s1)) eqn:M; [apply mem_In; exact M|].
+  apply mem_false in M. exfalso.
+  destruct (find x s1) as [n|] eqn:F; [|eapply absent_no_reach; eassumption].
+  destruct (add_untouched_reach s es s1 t x n x HI HL Ht M F Hr) as [_ R0].
+  eapply Inv_acyclic; eassumption.
+Qed.
+
+(* a cycle reported by the incremental layer is a real cycle: the spec layer rejects too *)
+Lemma inc_add_cycle s es s1 :
+  Inv s -> insert_all s es = TOk s1 -> i_add true s es = TErr ECycle ->
+  s_compute s (OAdd true es) = TErr ECycle.
+Proof.
+  intros HI E H. unfold i_add in H.
+  pose proof (i_add_loop_insert_all es s []) as HL.
+  destruct (i_add_loop s [] es) as [[s1' t]|e] eqn:EL; [|congruence].
+  assert (s1' = s1) by congruence. subst s1'. unfold finish in H.
+  pose proof (repair_sound s1 (touch_descendants t s1) (add_edit_sound s es s1 HI E)) as RS.
+  rewrite H in RS. destruct RS as [x [Hk Hr]].
+  eapply spec_op_cycle_rejected; [cbn [s_edit]; exact E | exact Hk | exact Hr].
+Qed.
+
+(* same for remove of one uid is vacuous (no cycle can arise); for any op: what repair accepts is sound *)
